@@ -156,7 +156,63 @@ def validate_views(ck):
     return True, cases, ""
 
 
+def validate_order(ck):
+    """Gen.Order (pinned: the writer and the appender count points after the destination has taken them) against the live
+    code: a session whose write of the point records fails completely is closed by its with-block; the header it leaves must
+    advertise only the points of the writes that succeeded"""
+    import io
+    import laspy
+    from . import fileio as fio
+    from .props import c06, c19
+    out = ck.driver(["od flags"])
+    if not out:
+        return False, 0, "driver did not run"
+    flags = dict(kv.split("=") for kv in out[0].split())
+    cases = 0
+    for kind in ("writer", "appender"):
+        if flags.get(kind) != "1":
+            return False, cases, f"the pinned table says the {kind} counts before writing"
+        for n_ok in (0, 2):
+            las = fio.make_las(ck.rng, 2, 1, 3)
+            base = io.BytesIO()
+            if kind == "appender":
+                las.write(base)
+            initial = base.getvalue()
+            probe = c19.Recorder(initial)
+            probe.log = []
+            def session(dest, n_ok=n_ok):
+                dest.seek(0)
+                if kind == "writer":
+                    with laspy.open(dest, mode="w", header=las.header, closefd=False) as w:
+                        if n_ok:
+                            w.write_points(las.points[:n_ok])
+                        w.write_points(las.points)
+                else:
+                    with laspy.open(dest, mode="a", closefd=False) as a:
+                        if n_ok:
+                            a.append_points(las.points[:n_ok])
+                        a.append_points(las.points)
+            session(probe)
+            big = [i for i, (pos, d) in enumerate(probe.log) if len(d) == len(las.points) * las.header.point_format.size]
+            if not big:
+                return False, cases, f"{kind}: the write of the point records was not found in the write stream"
+            dest = c19.FaultyRecorder(initial, big[-1], 0.0)
+            try:
+                session(dest)
+            except OSError:
+                pass
+            cases += 1
+            left = dest.getvalue()
+            minor = left[25]
+            count = int.from_bytes(left[247:255], "little") if minor >= 4 else int.from_bytes(left[107:111], "little")
+            want = n_ok + (3 if kind == "appender" else 0)
+            if count != want:
+                return False, cases, (f"{kind} session whose last write of {len(las.points)} points failed completely, then closed: the header advertises "
+                                      f"{count} points, {want} were written")
+    return True, cases, ""
+
+
 # GE and Dims: the only properties that rest on them (C20; C07, C12) compare the pinned functions with the live code in their
 # own correspondence run - exhaustively for GE (all 65536 field values x every flag assignment), on every (version, format)
 # request for Dims - so no separate grid is needed: the fallback is accepted iff that correspondence holds.
-VALIDATORS = {"Reader": validate_reader, "Copc": validate_copc, "Compression": validate_compression, "GE": None, "Dims": None, "Views": validate_views}
+VALIDATORS = {"Reader": validate_reader, "Copc": validate_copc, "Compression": validate_compression, "GE": None, "Dims": None, "Views": validate_views, "Order": validate_order}
